@@ -13,6 +13,8 @@ CONSTANTS
     MaxPw,        \* password lines per instance
     StrayLevel,   \* 0: no stray replies; 1: stale/unknown/malformed tags and unknown services with two reply kinds; 2: all kinds
     JunkOn,       \* BOOLEAN: junk lines
+    Rich,         \* BOOLEAN: text pools with boundary lengths (simulation) instead of one text per field
+    PwOn,         \* BOOLEAN: password lines
     EmitMod       \* print every EmitMod-th behaviour (1 = all, 0 = none)
 
 VARIABLES
@@ -39,37 +41,49 @@ MCInit == /\ Init
 
 SvcNameSet == {Services[n].name : n \in 1..Len(Services)}
 
-\* texts: <<ref, full length>>
-TNick == <<"n1", 5>>
-THost == <<"h1", 12>>
-TIdent == <<"i1", 4>>
-TUser == <<"c1", 6>>
-TReal == <<"r1", 11>>
-TCred == <<"p1", 10>>
-TAcct == <<"ac1", 8>>
-TText == <<"t1", 9>>
+\* texts: <<ref, full length>>; the rich pools straddle the documented limits
+NickPool  == IF Rich THEN {<<"n1", 5>>, <<"nb", 30>>, <<"nc", 31>>, <<"nd", 45>>} ELSE {<<"n1", 5>>}
+HostPool  == IF Rich THEN {<<"h1", 12>>, <<"hb", 63>>, <<"hc", 64>>, <<"hd", 80>>} ELSE {<<"h1", 12>>}
+IdentPool == IF Rich THEN {<<"i1", 4>>, <<"ib", 10>>, <<"ic", 11>>, <<"id", 15>>} ELSE {<<"i1", 4>>}
+\* <<text, starts with ~>>
+UserPool  == IF Rich THEN {<< <<"c1", 6>>, 0>>, << <<"cb", 9>>, 0>>, << <<"cc", 10>>, 0>>, << <<"cd", 13>>, 0>>,
+                           << <<"~e", 8>>, 1>>, << <<"~f", 10>>, 1>>, << <<"~g", 12>>, 1>>}
+             ELSE {<< <<"c1", 6>>, 0>>}
+RealPool  == IF Rich THEN {<<"r1", 11>>, <<"spb", 50>>, <<"spc", 51>>, <<"spd", 70>>} ELSE {<<"r1", 11>>}
+CredPool  == IF Rich THEN {<<"p1", 10>>, <<"pb", 511>>, <<"pc", 512>>, <<"pd", 600>>} ELSE {<<"p1", 10>>}
+AcctPool  == IF Rich THEN {<<"ac1", 8>>, <<"acb", 64>>, <<"acc", 65>>, <<"acd", 90>>} ELSE {<<"ac1", 8>>}
+TextPool  == IF Rich THEN {<<"t1", 9>>, <<"spt", 60>>, <<"spu", 200>>} ELSE {<<"t1", 9>>}
+TrailPool == IF Rich THEN {"", " tr ailing :words"} ELSE {""}
 
-ModeChoices == { <<"+", "x">>, <<"+", "!">>, <<"-", "!">> }
-ModeName(m) == m[1] \o m[2]
+ModeChoices == IF Rich THEN { <<"+", "x">>, <<"+", "!">>, <<"-", "!">>, <<"+", "x", "!">>, <<"-", "x", "+", "!">>, <<"+", "!", "-", "!">>, <<"+">> }
+               ELSE { <<"+", "x">>, <<"+", "!">>, <<"-", "!">> }
+RECURSIVE ModeName(_)
+ModeName(m) == IF m = <<>> THEN "" ELSE m[1] \o ModeName(Tail(m))
 
 DataEvents(i) ==
-    { [e |-> "N", id |-> i, host |-> THost], [e |-> "d", id |-> i],
-      [e |-> "u", id |-> i, ident |-> TIdent], [e |-> "u0", id |-> i],
-      [e |-> "n", id |-> i, nick |-> TNick],
-      [e |-> "U", id |-> i, user |-> TUser, tilde |-> 0, real |-> TReal],
-      [e |-> "H", id |-> i] }
+    { [e |-> "N", id |-> i, host |-> t] : t \in HostPool } \cup { [e |-> "d", id |-> i] }
+    \cup { [e |-> "u", id |-> i, ident |-> t] : t \in IdentPool } \cup { [e |-> "u0", id |-> i] }
+    \cup { [e |-> "n", id |-> i, nick |-> t] : t \in NickPool }
+    \cup { [e |-> "U", id |-> i, user |-> u[1], tilde |-> u[2], real |-> t] : u \in UserPool, t \in RealPool }
+    \cup { [e |-> "H", id |-> i] }
 
 PasswordEvents(i) ==
-    { [e |-> "P", id |-> i, shape |-> "ok", modes |-> m, cred |-> TCred, raw |-> <<"P" \o ModeName(m), 0>>] : m \in ModeChoices }
-    \cup { [e |-> "P", id |-> i, shape |-> "nomode", modes |-> <<>>, cred |-> TCred, raw |-> <<"Pbad", 0>>] }
+    IF ~PwOn THEN {}
+    ELSE { [e |-> "P", id |-> i, shape |-> "ok", modes |-> m, cred |-> c, raw |-> <<"P" \o ModeName(m) \o c[1], 0>>]
+             : m \in ModeChoices, c \in CredPool }
+         \cup { [e |-> "P", id |-> i, shape |-> sh, modes |-> <<>>, cred |-> c, raw |-> <<"P" \o sh \o c[1], 0>>]
+             : sh \in (IF Rich THEN {"nomode", "nosp", "nosep"} ELSE {"nomode"}), c \in CredPool }
 
 ReplyKinds == {"OK", "OKA", "OKE", "NO", "AGAIN", "MORE", "UNL", "JUNK"}
-ReplyEv(s, tag, k) == [e |-> "X", svc |-> s, tag |-> tag, kind |-> k, acct |-> TAcct, text |-> TText]
+ReplyEvs(s, tag, k) == { [e |-> "X", svc |-> s, tag |-> tag, kind |-> k, acct |-> a, text |-> t, trail |-> tr]
+                           : a \in (IF k = "OKA" THEN AcctPool ELSE {<<"ac1", 8>>}),
+                             t \in (IF k \in {"NO", "AGAIN", "MORE"} THEN TextPool ELSE {<<"t1", 9>>}),
+                             tr \in (IF k = "OKA" THEN TrailPool ELSE {""}) }
 
 \* replies a service that is awaited may send (all kinds), to the current instance of i
 AwaitedReplies(i) ==
     IF ~Live(i) THEN {}
-    ELSE { ReplyEv(slots[s].name, Routing(i, req[i].serial), k) : s \in req[i].ref, k \in ReplyKinds }
+    ELSE UNION { ReplyEvs(slots[s].name, Routing(i, req[i].serial), k) : s \in req[i].ref, k \in ReplyKinds }
 
 \* strays: not-awaited service / unknown service for the current tag; stale, malformed tags
 StrayKinds == IF StrayLevel >= 2 THEN ReplyKinds \ {"JUNK"} ELSE {"OKA", "NO"}
@@ -78,13 +92,22 @@ StrayReplies(i) ==
     ELSE LET cur == IF Live(i) THEN {Routing(i, req[i].serial)} ELSE {}
              notAwaited == IF Live(i) THEN (SvcNameSet \cup {"zz.unknown"}) \ {slots[s].name : s \in req[i].ref} ELSE {}
              badtags == oldtags[i] \cup {Hex(i), Hex(i) \o "_1x", "_", "zz_1"}
-         IN { ReplyEv(s, t, k) : s \in notAwaited, t \in cur, k \in StrayKinds }
-            \cup { ReplyEv(s, t, k) : s \in SvcNameSet, t \in badtags, k \in StrayKinds }
+         IN UNION { ReplyEvs(s, t, k) : s \in notAwaited, t \in cur, k \in StrayKinds }
+            \cup UNION { ReplyEvs(s, t, k) : s \in SvcNameSet, t \in badtags, k \in StrayKinds }
 
 JunkEvents(i) ==
     IF ~JunkOn THEN {}
     ELSE { [e |-> "J", shape |-> "drop", form |-> f, id |-> i] : f \in {"idonly", "blank", "nopar", "unkcmd", "shortC", "shortX", "unkid"} }
          \cup { [e |-> "J", shape |-> "m1", cmd |-> "N", id |-> i], [e |-> "J", shape |-> "Ushort", id |-> i] }
+
+\* lines about a client that has already been decided / withdrawn (the server may still send them):
+\* all are dropped by the daemon, so nothing may come back
+DeadEvents(i) ==
+    IF StrayLevel = 0 \/ Live(i) \/ inst[i] = 0 THEN {}
+    ELSE { [e |-> "H", id |-> i], [e |-> "d", id |-> i], [e |-> "u0", id |-> i], [e |-> "TO", id |-> i],
+           [e |-> "D", id |-> i], [e |-> "T", id |-> i],
+           [e |-> "n", id |-> i, nick |-> <<"n1", 5>>],
+           [e |-> "P", id |-> i, shape |-> "ok", modes |-> <<"-", "!">>, cred |-> <<"p1", 10>>, raw |-> <<"P-!p1", 0>>] }
 
 Events ==
     UNION {
@@ -92,7 +115,7 @@ Events ==
       \cup (IF Live(i) THEN DataEvents(i) \cup {[e |-> "D", id |-> i], [e |-> "T", id |-> i]} ELSE {})
       \cup (IF Live(i) /\ npw[i] < MaxPw THEN PasswordEvents(i) ELSE {})
       \cup (IF Live(i) /\ req[i].timer = "armed" THEN {[e |-> "TO", id |-> i]} ELSE {})
-      \cup AwaitedReplies(i) \cup StrayReplies(i) \cup JunkEvents(i)
+      \cup AwaitedReplies(i) \cup StrayReplies(i) \cup JunkEvents(i) \cup DeadEvents(i)
       : i \in Ids }
 
 MCNext ==
@@ -103,7 +126,7 @@ MCNext ==
             /\ cviol' = r.v
        /\ inst' = IF e.e = "C" THEN [inst EXCEPT ![e.id] = @ + 1] ELSE inst
        /\ npw' = IF e.e = "C" THEN [npw EXCEPT ![e.id] = 0]
-                 ELSE IF e.e = "P" THEN [npw EXCEPT ![e.id] = @ + 1] ELSE npw
+                 ELSE IF e.e = "P" /\ Live(e.id) THEN [npw EXCEPT ![e.id] = @ + 1] ELSE npw
        /\ oldtags' = IF e.e = "C" /\ Live(e.id)
                      THEN [oldtags EXCEPT ![e.id] = @ \cup {Routing(e.id, req[e.id].serial)}]
                      ELSE IF e.e \in {"D", "T"} /\ Live(e.id)
@@ -121,6 +144,10 @@ MCView == <<serial, req, SlotsNoRefs, cst, cviol, inst, npw, oldtags>>
 Emit == \/ EmitMod = 0
         \/ (EmitMod > 1 /\ RandomElement(1..EmitMod) # 1)
         \/ PrintT("@@E" \o ToJson(hist'))
+
+\* simulation mode: print the behaviour once it has reached the requested length
+SimDepth == 40
+SimEmit == Len(hist) < SimDepth \/ PrintT("@@E" \o ToJson(hist))
 
 \* contract conjuncts, one invariant each so that TLC names the property
 P01_once    == "P01_once" \notin cviol
